@@ -670,12 +670,21 @@ func (c *fnCtx) checkProtect(st *State, in *ssa.Store) {
 
 func (c *fnCtx) loopMods(li *loopInfo) (mods []string, all bool) {
 	set := map[string]bool{}
+	li.localOnly = map[string]bool{}
+	nonLocal := map[string]bool{}
+	li.outerAllocs = map[string][]*ssa.Alloc{}
 	for b := range li.body {
 		for _, in := range b.Instrs {
 			switch in := in.(type) {
 			case *ssa.Store:
+				root := allocRoot(in.Addr)
 				for _, m := range c.staticStoreComps(in.Addr) {
 					set[m] = true
+					if root == nil {
+						nonLocal[m] = true
+					} else if !li.body[root.Block()] {
+						li.outerAllocs[m] = append(li.outerAllocs[m], root)
+					}
 				}
 			case *ssa.Alloc:
 				pt := in.Type().Underlying().(*types.Pointer).Elem()
@@ -689,6 +698,7 @@ func (c *fnCtx) loopMods(li *loopInfo) (mods []string, all bool) {
 				}
 				for _, m := range ms {
 					set[m] = true
+					nonLocal[m] = true
 				}
 			case *ssa.Go, *ssa.Send, *ssa.Select:
 				return nil, true
@@ -701,6 +711,9 @@ func (c *fnCtx) loopMods(li *loopInfo) (mods []string, all bool) {
 	}
 	for m := range set {
 		mods = append(mods, m)
+		if !nonLocal[m] {
+			li.localOnly[m] = true
+		}
 	}
 	sort.Strings(mods)
 	return mods, false
@@ -756,4 +769,25 @@ func (c *fnCtx) staticStoreComps(addr ssa.Value) []string {
 		out = append(out, l.comp)
 	}
 	return out
+}
+
+
+// allocRoot returns the allocation a store address is rooted at (field/element chains of a
+// local Alloc), or nil.
+func allocRoot(addr ssa.Value) *ssa.Alloc {
+	for {
+		switch a := addr.(type) {
+		case *ssa.Alloc:
+			return a
+		case *ssa.FieldAddr:
+			addr = a.X
+		case *ssa.IndexAddr:
+			if _, isSlice := a.X.Type().Underlying().(*types.Slice); isSlice {
+				return nil
+			}
+			addr = a.X
+		default:
+			return nil
+		}
+	}
 }
